@@ -57,7 +57,7 @@ def site_class(item, catalogue):
 
 
 # ---- re-configuration of the tolerance switch on the existing Timeline --------------------------------------------------
-def insert_flips(ops, flips):
+def insert_flips(ops, flips, raw=False):
     """flips: [(tick number, flag)] - `timeline.ignore_exceptions = flag` after that many ticks have run (behind the operations
     already made at that instant, before the next tick); the tick operations are split where needed"""
     out, t = [], 0
@@ -69,12 +69,12 @@ def insert_flips(ops, flips):
         n = o[1]
         while n > 0:
             for p in [p for p in pending if p[0] <= t]:
-                out.append(["set_ignore", bool(p[1])]); pending.remove(p)
+                out.append(list(p[1]) if raw else ["set_ignore", bool(p[1])]); pending.remove(p)
             upcoming = [p[0] for p in pending if p[0] < t + n]
             k = (min(upcoming) - t) if upcoming else n
             out.append(["tick", k]); t += k; n -= k
     for p in pending:
-        out.append(["set_ignore", bool(p[1])])
+        out.append(list(p[1]) if raw else ["set_ignore", bool(p[1])])
     return out
 
 
@@ -197,6 +197,7 @@ def marker_variant(desc, f, idx):
 def without(desc, fs):
     d = copy.deepcopy(desc)
     d["tracks"] = [t for k, t in enumerate(desc["tracks"]) if k not in fs]
+    d.pop("later_ops", None)          # they refer to the track that is left out
     return d
 
 
@@ -404,6 +405,20 @@ class Plan:
             sc["config"]["dev_fail"] = dev_fail
             if dev_exc:
                 sc["config"]["dev_fail_exc"] = dev_exc
+        # names: desc tracks may carry "name"; the n-th schedule call of the history is the track with id n
+        names = {ids[k_]: t_["name"] for k_, t_ in enumerate(desc["tracks"]) if t_.get("name") is not None and k_ in ids}
+        if names:
+            n_ = 0
+            for o in sc["ops"]:
+                if o[0] == "schedule":
+                    if n_ in names:
+                        o[6] = names[n_]
+                    n_ += 1
+        if desc.get("max_tracks"):
+            sc["config"]["max_tracks"] = desc["max_tracks"]
+        if desc.get("later_ops"):
+            # operations made later in the performance that refer to a track by its index in desc["tracks"]
+            sc["ops"] = insert_flips(sc["ops"], [(t_, [o_[0]] + [ids[o_[1]] if o_[1] in ids else 99] + o_[2:]) for t_, o_ in desc["later_ops"]], raw=True)
         if device:
             sc["config"]["device"] = device
         if flips:
@@ -488,6 +503,41 @@ def gen_cases(rng, n_base, per_base):
                     i_run = plan.add(("cbfault", b, f, idx, kind, exc, ctor, flips, mod), d3, mode_ignore=ctor, flips=flips)
                     cases.append({"kind": kind, "site": "callback", "b": b, "f": [f], "idx": [idx], "cb": cb, "ignore": ctor, "ctor": ctor,
                                   "flips": flips, "setup": label, "exc": exc, "run": i_run, "none": i_none, "desc": d3})
+        # AFTER a contained fault: the failing track bears a name; later in the performance a new track is scheduled under that name
+        # (the live coder's reaction to the warning), the failed Track object is updated / unscheduled, the track limit had been
+        # reached before the fault
+        if b % 3 == 0 and sites:
+            used = [t["chan"] for t in desc["tracks"]]
+            free = [c for c in range(16) if c not in used]
+            (f, idx) = min(sites, key=lambda s_: (s_[1] > 1, rng.random()))
+            if free:
+                item = fault_item(rng, rng.choice(["raise_eval", "raise_ctor"]))
+                da = with_item(desc, f, idx, item)
+                da["tracks"][f]["name"] = 7
+                late_at = min(H - 3, max(t["at"] for t in desc["tracks"]) + rng.choice([3, 5, 8, 12]))
+                cbs_late = []
+                late_stream = M.gen_track(rng, desc["tpb"], F(1, desc["tpb"]) * rng.choice([1, 2]), free[0], cbs_late, {})
+                late_stream["form"] = "scripted"
+                late_stream["items"] = [i_ for i_ in late_stream["items"] if i_["k"] != "action"] or \
+                    [{"k": "note", "dur": F(1, desc["tpb"]), "note": 64, "amp": 64, "gate": [1, 1], "chan": free[0]}]
+                da["tracks"].append({"chan": free[0], "stream": late_stream, "at": max(0, late_at), "q": None, "d": rng.choice([None, None, F(1, desc["tpb"])]),
+                                     "count": None, "rwd": True, "unschedule_at": None, "name": 7})
+                if rng.random() < 0.35:
+                    da["max_tracks"] = k             # the limit is reached by the base tracks: the late one needs the failed one's place
+                later = []
+                if rng.random() < 0.5:
+                    later.append((late_at + 1, ["unschedule", f]))
+                if rng.random() < 0.4:
+                    later.append((late_at + 2, ["update", f, late_stream, None, None, None]))
+                da["later_ops"] = later
+                dm = marker_variant(da, f, idx)
+                i_mark = plan.add(("mark-after", b, f, idx), dm)
+                i_minus = plan.add(("minus-after", b, f), without(da, {f}))
+                for ignore in (True,):            # after a fault that ESCAPED the performance is over: tolerant mode only
+                    i_run = plan.add(("after", b, f, idx, item, ignore), da, mode_ignore=ignore)
+                    cases.append({"kind": "stream", "site": "after-fault", "b": b, "f": [f], "idx": [idx], "ignore": ignore, "ctor": ignore,
+                                  "flips": [], "item": item, "run": i_run, "mark": [i_mark], "minus": i_minus, "base": i_base, "desc": da,
+                                  "late_at": max(0, late_at), "later": [o_[1][0] for o_ in later], "limit": bool(da.get("max_tracks"))})
         # a device fault
         for _ in range(2 if per_base else 4):
             j = rng.choice([0, 1, 2, 3, 4, 5, 6, 8, 11])
@@ -861,6 +911,13 @@ def judge(case, plan, results, catalogue):
                 bad.append(("interference", "a track whose pattern ends with a StopIteration subclass changed the trace of the track on channel %d" % chans[k]))
                 break
         return bad
+    if case.get("late_at") is not None:
+        case["after"] = "fault-before-the-reschedule" if (strikes and strikes[0][0] < case["late_at"]) else "no-fault-before-the-reschedule"
+        if case["after"] != "fault-before-the-reschedule":
+            # the failing track is still alive when the name is used again: the call updates it, as it should - nothing to judge here
+            # beyond the model comparison
+            case["strikes"] = []
+            return bad
     if case["kind"] in ("stream", "device"):
         first = strikes[0][0] if strikes else None
         # the mode that counts is the one in force when the fault strikes
@@ -1080,6 +1137,13 @@ def check(run):
             run.dist("class." + str(site_class(case["item"], catalogue)))
         elif case.get("exc"):
             run.dist("class." + case["exc"])
+        if case.get("after"):
+            run.dist("after-fault." + case["after"])
+            if case["after"] == "fault-before-the-reschedule":
+                for o_ in case["later"]:
+                    run.dist("after-fault.later-" + o_)
+                if case["limit"]:
+                    run.dist("after-fault.track-limit-reached-before-the-fault")
         if case["kind"] == "life":
             run.dist("life.first-run-" + case["first"])
             run.dist("life.between." + ("+".join(case["between"]) or "nothing"))
